@@ -35,7 +35,7 @@ def pairwise_configs():
     return [dict(cons=c, varh=v, domh=d, table=i % 3) if (v == "regret" or d == "cost") else dict(cons=c, varh=v, domh=d) for i, (c, v, d) in enumerate(chosen)]
 
 
-def plan(tier, seed, models=None, extra_default=True):
+def plan(tier, seed, models=None, extra_default=True, underdetermined=None):
     """list of (model, cfg) runs: every model under the default configuration + a rotation of the pairwise set"""
     names = [m for m in h_solve.MODELS if (models is None or m in models) and not (tier == "quick" and h_solve.MODELS[m].get("thorough_only"))]
     pw = pairwise_configs()
@@ -70,8 +70,10 @@ def plan(tier, seed, models=None, extra_default=True):
         runs.append(ALIAS_RUN)
     # decision-domain subsets that do NOT determine every variable: whatever is reported must still be a solution (C01); the
     # enumeration need not be complete (C02 is about full decision sets) and the search may end by refusing to go on
+    if underdetermined is None:
+        underdetermined = tier != "quick"  # quick tier: asked by C01 only (the property they are about)
     for name, dec in (("alldiff3", [0]), ("lt", [1]), ("alldiff_lt", [2]), ("queens_like", [1]), ("max_leq_min_geq", [0]), ("geq_leq", [0])):
-        if name in names:
+        if name in names and underdetermined:
             runs.append((name, dict(decision=dec, underdetermined=True)))
             runs.append((name, dict(decision=dec, underdetermined=True, cons="shaving", domh="max")))
     seen, out = set(), []
